@@ -8,6 +8,7 @@ from vf.sim.driver import replay_case, draw_steps, is_dest
 from vf.sim.explore import explore, sig_key
 from vf.sim.faults import C02AllOrNone
 from vf.sim.world import Scratch
+from vf.checks import c03
 
 LEVEL = 'fault_enumeration'
 RULE = ('Generated histories (<= 3 PRs, approvals and green builds biased so '
@@ -157,6 +158,12 @@ def body_factory(tier):
                 return
         elif pk == 2:
             queued_then_new_branch(data, hist, max_faults)
+            if hist.violations:
+                return
+        elif pk == 3 and hist.world.mode == 'queue':
+            # fault-free moments count too: two queued pull requests with
+            # overlapping targets, the older one not green where only it goes
+            c03.older_blocked_prelude(data, hist)
             if hist.violations:
                 return
         while len(hist.steps) < 400 and not stop:
